@@ -1,3 +1,92 @@
-(* C02 - placeholder while the round-trip proofs are being written: only the
-   definitions are checked to be well-typed and to compute on an example. *)
+(* C02 - Valve A2S replies are decoded field for field. *)
 From GD Require Import Base.Prelude Model.Strings Model.Buffer Model.Net Model.Valve Spec.ValveSpec.
+From GD Require Import Proofs.Msafe Proofs.ValveRoundtrip Proofs.ValveTransport.
+
+(* For every server state in the specification's domain (wf_state: UTF-8
+   strings without NUL, full numeric ranges, 0-255 players, 0-65535 rules, any
+   extra-data flag combination, Source or obsolete GoldSrc layout, The Ship
+   fields iff the engine is The Ship's), every engine, gather setting and
+   accepted timeout setting, any number of challenge rounds per request, and
+   any transport that delivers the three replies: the response is exactly the
+   expected one (or BadGame when the app id is refused). *)
+Theorem c02_valve_roundtrip : forall bz port e g t st o,
+  wf_state e st = true -> settings_ok t -> retries_ok t ->
+  reply_ok bz e 0 (vo_info o) (enc_info (vs_info st)) ->
+  reply_ok bz e (info_protocol_of (vs_info st)) (vo_players o) (enc_players (vs_players st)) ->
+  reply_ok bz e (info_protocol_of (vs_info st)) (vo_rules o) (enc_rules (vs_rules st)) ->
+  fst (Valve.query bz port e (Some g) t (net_init (map Datagram (valve_script st o g)) [] []))
+  = valve_expected_outcome st e g.
+Proof. exact valve_roundtrip. Qed.
+Print Assumptions c02_valve_roundtrip.
+
+(* the four transports deliver (reply_ok), with 0..n challenge rounds *)
+Theorem c02_single_delivers : forall bz e protocol chs payload kind body,
+  payload = kind :: body -> kind <> 65 -> Forall challenge_ok chs ->
+  lenN (simple_header ++ payload) <= packet_size ->
+  reply_ok bz e protocol (mk_ropts chs Single) payload.
+Proof. exact reply_ok_single. Qed.
+Print Assumptions c02_single_delivers.
+Theorem c02_source_split_delivers : forall bz ids protocol chs cuts id payload kind body,
+  payload = kind :: body -> kind <> 65 -> Forall challenge_ok chs ->
+  id < 2147483648 -> lenN cuts < 255 ->
+  Forall (fun d => lenN d <= packet_size)
+         (transport_packets (SplitSrc cuts id ((protocol =? 7) && engine_is (Source ids) 240)) payload) ->
+  reply_ok bz (Source ids) protocol (mk_ropts chs (SplitSrc cuts id ((protocol =? 7) && engine_is (Source ids) 240))) payload.
+Proof. exact reply_ok_split_src. Qed.
+Print Assumptions c02_source_split_delivers.
+Theorem c02_goldsrc_split_delivers : forall bz force protocol chs cuts id payload kind body,
+  payload = kind :: body -> kind <> 65 -> Forall challenge_ok chs ->
+  id < 4294967296 -> lenN cuts < 15 ->
+  Forall (fun d => lenN d <= packet_size) (transport_packets (SplitGold cuts id) payload) ->
+  reply_ok bz (GoldSrc force) protocol (mk_ropts chs (SplitGold cuts id)) payload.
+Proof. exact reply_ok_split_gold. Qed.
+Print Assumptions c02_goldsrc_split_delivers.
+(* compressed: under the stated hypothesis on the bzip2 oracle *)
+Theorem c02_compressed_split_delivers : forall bz ids protocol chs cuts id comp payload kind body,
+  payload = kind :: body -> kind <> 65 -> Forall challenge_ok chs ->
+  id < 2147483648 -> lenN cuts < 255 ->
+  lenN (simple_header ++ payload) <= max_decompressed_size -> crc32 (simple_header ++ payload) < 4294967296 ->
+  bz comp (lenN (simple_header ++ payload)) = Ok (simple_header ++ payload) ->
+  Forall (fun d => lenN d <= packet_size)
+         (transport_packets (SplitBz cuts id ((protocol =? 7) && engine_is (Source ids) 240) comp) payload) ->
+  reply_ok bz (Source ids) protocol (mk_ropts chs (SplitBz cuts id ((protocol =? 7) && engine_is (Source ids) 240) comp)) payload.
+Proof. exact reply_ok_split_bz. Qed.
+Print Assumptions c02_compressed_split_delivers.
+
+(* the parsers alone (payload = bytes after the reply's type byte) *)
+Theorem c02_source_info : forall e s, wf_info e (SrcInfo s) = true ->
+  fst (parse_source_info e (buf_new (tl (enc_src_info s)))) = Ok (expected_info (SrcInfo s)).
+Proof. exact src_info_roundtrip. Qed.
+Print Assumptions c02_source_info.
+Theorem c02_goldsrc_info : forall g, wf_info (GoldSrc true) (GoldInfo g) = true ->
+  fst (parse_goldsrc_info (buf_new (tl (enc_gold_info g)))) = Ok (expected_info (GoldInfo g)).
+Proof. exact gold_info_roundtrip. Qed.
+Print Assumptions c02_goldsrc_info.
+Theorem c02_players : forall e l, forallb (wf_player e) l = true -> lenN l < 256 ->
+  fst (players_parser e (buf_new (tl (enc_players l)))) = Ok (map expected_player l).
+Proof. exact players_roundtrip. Qed.
+Print Assumptions c02_players.
+Theorem c02_rules : forall l,
+  forallb (fun kv => no_nul (fst kv) && no_nul (snd kv)) l = true -> lenN l < 65536 ->
+  fst ((let* count := read_u16 in parse_rules (N.to_nat count) []) (buf_new (tl (enc_rules l))))
+  = Ok (fold_left (fun m kv => map_insert (fst kv) (snd kv) m) l []).
+Proof. exact rules_roundtrip. Qed.
+Print Assumptions c02_rules.
+
+(* non-vacuity: a concrete server, two players, a rule, extra data, one
+   challenge round on the info request and a 3-packet Source split of the rules *)
+Definition ex_state : vstate :=
+  mk_vstate (SrcInfo (mk_src 17 (str "srv") (str "de_dust2") (str "cstrike") (str "CS") 10 2 16 0 100 108 0 1 None (str "1.0")
+                       (Some (mk_edf (Some 27015) None (Some (27020, str "tv")) (Some (str "a,b")) (Some 240)))))
+            [mk_ps 0 (str "alice") 5 1092616192 None; mk_ps 1 (str "bob") (-3) 0 None]
+            [(str "mp_timelimit", str "30")].
+Definition ex_opts : vopts :=
+  mk_vopts (mk_ropts [[1; 2; 3; 4]] Single) (mk_ropts [] Single) (mk_ropts [] (SplitSrc [8%nat; 8%nat] 77 false)).
+Example c02_ex_wf : wf_state (Source (Some (240, None))) ex_state = true.
+Proof. reflexivity. Qed.
+Example c02_ex_run :
+  fst (Valve.query (fun _ _ => Err Decompress) 27015 (Source (Some (240, None))) (Some gathering_default) None
+         (net_init (map Datagram (valve_script ex_state ex_opts gathering_default)) [] []))
+  = valve_expected_outcome ex_state (Source (Some (240, None))) gathering_default
+  /\ valve_expected_outcome ex_state (Source (Some (240, None))) gathering_default = Ok (valve_expected ex_state (Source (Some (240, None))) gathering_default).
+Proof. split; vm_compute; reflexivity. Qed.
